@@ -275,9 +275,12 @@ class Prop(PropBase):
                         f'snapshot {i}: {p} holds {have[:60]!r}, neither its old nor its new bytes')
                     continue
                 if obs['events'] is not None:
+                    # a rename took effect unless it raised: injected, or (whatever the cause)
+                    # followed by move_temp_file's handler removing the temp
                     done = sum(1 for j, (t, _) in enumerate(events[:i])
                                if t.startswith('replace:') and t.endswith('>' + p)
-                               and faults.get(j) != 'raise')
+                               and faults.get(j) != 'raise'
+                               and not (j + 1 < len(events) and events[j + 1][0].startswith('remove:')))
                     want = chain[p][done] if done < len(chain[p]) else None
                     if have != want:
                         add('source-changed-outside-rename',
